@@ -4,5 +4,5 @@ From JP Require Import Base Ast Eval ValueModel Spec NormPath Known WellFormed R
 From JP.gen Require Import Grammar.
 Extraction Language OCaml.
 
-Extraction "model.ml" m_query rfc_query cur_query np names_plain names_single doc_plain doc_exact53 wf_query parse_query rfc_parse m_reference rfc_reference set_at parse_query
+Extraction "model.ml" m_query rfc_query cur_query np names_plain names_single doc_plain doc_exact53 wf_query parse_query rfc_parse m_reference rfc_reference set_at strict_query rx_query_ok parse_query
   wf_json lookup Z.of_nat N.of_nat Z.opp Z.mul Z.add Z.div Z.modulo N.mul N.add.
